@@ -911,7 +911,7 @@ class Gen:
         if fmt == 'posix':
             p = '/' + '/'.join(self.pick(segs + ['\\']) for _ in range(self.r.randrange(0, 5)))
         else:
-            pre = self.pick(['C:\\', 'c:/', 'C|\\', 'z:\\', '\\\\host\\share\\', '//host/share/', '\\\\?\\C:\\', '\\\\?\\UNC\\host\\share\\', '\\\\localhost\\share\\', '\\\\LOCALHOST\\s\\', '\\\\localhost\\C:\\', '\\\\host\\C|\\', '\\\\..\\share\\', '\\\\1.2.3.4\\s\\', '\\\\b\u00fccher\\s\\', '\\\\\u3002\\s\\', '\\\\\uff0e\\share\\', '\\\\\uff61\\s\\', '\\\\?\\UNC\\\u3002\\s\\', '\\\\\u3002\u3002\\s\\', '\\\\loc\u00adalhost\\s\\', '\\\\h%41\\s\\', '\\\\ho st\\s\\'])
+            pre = self.pick(['C:\\', 'c:/', 'C|\\', 'z:\\', '\\\\host\\share\\', '//host/share/', '\\\\?\\C:\\', '\\\\?\\UNC\\host\\share\\', '\\\\localhost\\share\\', '\\\\LOCALHOST\\s\\', '\\\\localhost\\C:\\', '\\\\host\\C|\\', '\\\\..\\share\\', '\\\\1.2.3.4\\s\\', '\\\\b\u00fccher\\s\\', '\\\\\u3002\\s\\', '\\\\\uff0e\\share\\', '\\\\\uff61\\s\\', '\\\\?\\UNC\\\u3002\\s\\', '\\\\\u3002\u3002\\s\\', '\\\\loc\u00adalhost\\s\\', '\\\\a{b\\s\\', '\\\\a"b`c}\\share\\', '\\\\h%41\\s\\', '\\\\ho st\\s\\'])
             p = pre + self.pick(['\\', '/']).join(self.pick(segs) for _ in range(self.r.randrange(0, 4)))
         self.emit('rt %s %s' % (fmt, self.arg(p)))
 
